@@ -29,7 +29,7 @@ def main():
 
     os.makedirs('/tmp/mut', exist_ok=True)
     sh(f'git -C /repo worktree remove --force {wt}')
-    r = sh(f'git -C /repo worktree add -q --detach {wt} HEAD && git -C {wt} apply {mdir}/patch.diff')
+    r = sh(f'git -C /repo worktree add -q --detach {wt} HEAD && (git -C {wt} apply {mdir}/patch.diff || git -C {wt} apply --3way {mdir}/patch.diff)')
 
     if r.returncode:
         print('APPLY FAILED', r.stdout)
